@@ -2,7 +2,18 @@
 
     Expressions are evaluated by [cexpr]; a call of a user function executes the body
     with [PySem.exec] at the next lower fuel.  The model is validated on every run against
-    python3 executing the implementation's text for the same Core tree. *)
+    python3 executing the implementation's text for the same Core tree.
+
+    Classes: a [ClassDef] records the class attributes (constant initialisers only), the methods
+    and the linearisation of the class (depth first, left to right; a repeated ancestor is outside
+    the model).  [C(args)] allocates an object in the heap kept in the environment and runs the
+    first [__init__] found along the linearisation; [o.x] reads the instance field, then the class
+    attributes along the linearisation; [o.x = v] writes the instance field; [o.m(args)] calls the
+    method with [self] bound; [Parent.__init__(self, ..)] is the call of the plain function.  An
+    object whose linearisation contains a builtin exception class carries the [args] of the
+    exception (set by the constructor call and by [Exception.__init__]); it can be raised, is caught
+    through the linearisation, and is printed as Python prints an exception.  Everything else
+    (dunder methods, bound methods as values, printing of plain objects, ...) is [unsup]. *)
 From Coq Require Import List String Bool ZArith Ascii.
 From MambaModel Require Import model.Core model.SemDom model.PySem.
 Import ListNotations.
@@ -11,17 +22,34 @@ Local Open Scope string_scope.
 Record fundef (B : Type) := { fparams : list string; fbody : B; fvalret : bool }.
 Arguments fparams {B}. Arguments fbody {B}. Arguments fvalret {B}.
 
+(** A class.  The record serves both evaluators: the model of Python uses [cattrs] (class
+    attributes), [cmethods] and [cmro]; the reference semantics of Mamba also [cparams] (constructor
+    arguments) and the argument expressions of the parent calls in [cparents]. *)
+Record classdef (B : Type) := {
+  cparams : list string;
+  cparents : list (string * list B);
+  cattrs : store;
+  cmethods : list (string * fundef B);
+  cmro : list string }.
+Arguments cparams {B}. Arguments cparents {B}. Arguments cattrs {B}. Arguments cmethods {B}. Arguments cmro {B}.
+
+(** An object: its fields and, for an instance of an exception class, the exception's [args] *)
+Record obj := { ocls : string; ofields : store; oargs : option (list value) }.
+
 (** [bad] is set when something outside the modelled fragment was met in a position that
     cannot report it (an assignment target, a pattern, a definition) *)
 Record env (B : Type) := {
   globals : store; frame : option store; funs : list (string * fundef B);
+  classes : list (string * classdef B); heap : list obj;
   out : list string;                    (* printed lines, newest first *)
   bad : bool }.
-Arguments globals {B}. Arguments frame {B}. Arguments funs {B}. Arguments out {B}. Arguments bad {B}.
+Arguments globals {B}. Arguments frame {B}. Arguments funs {B}. Arguments classes {B}. Arguments heap {B}.
+Arguments out {B}. Arguments bad {B}.
 
 Section Env.
   Context {B : Type}.
-  Definition env0 : env B := {| globals := []; frame := None; funs := []; out := []; bad := false |}.
+  Definition env0 : env B :=
+    {| globals := []; frame := None; funs := []; classes := []; heap := []; out := []; bad := false |}.
   Definition lookup_var (x : string) (e : env B) : option value :=
     match frame e with
     | Some fr => match sget x fr with Some v => Some v | None => sget x (globals e) end
@@ -29,21 +57,164 @@ Section Env.
     end.
   Definition set_var (x : string) (v : value) (e : env B) : env B :=
     match frame e with
-    | Some fr => {| globals := globals e; frame := Some (sset x v fr); funs := funs e; out := out e; bad := bad e |}
-    | None => {| globals := sset x v (globals e); frame := None; funs := funs e; out := out e; bad := bad e |}
+    | Some fr => {| globals := globals e; frame := Some (sset x v fr); funs := funs e; classes := classes e;
+                    heap := heap e; out := out e; bad := bad e |}
+    | None => {| globals := sset x v (globals e); frame := None; funs := funs e; classes := classes e;
+                 heap := heap e; out := out e; bad := bad e |}
     end.
   Definition poison (e : env B) : env B :=
-    {| globals := globals e; frame := frame e; funs := funs e; out := out e; bad := true |}.
+    {| globals := globals e; frame := frame e; funs := funs e; classes := classes e; heap := heap e;
+       out := out e; bad := true |}.
   Definition emit (line : string) (e : env B) : env B :=
-    {| globals := globals e; frame := frame e; funs := funs e; out := line :: out e; bad := bad e |}.
+    {| globals := globals e; frame := frame e; funs := funs e; classes := classes e; heap := heap e;
+       out := line :: out e; bad := bad e |}.
   Definition with_frame (fr : option store) (e : env B) : env B :=
-    {| globals := globals e; frame := fr; funs := funs e; out := out e; bad := bad e |}.
+    {| globals := globals e; frame := fr; funs := funs e; classes := classes e; heap := heap e;
+       out := out e; bad := bad e |}.
   Definition add_fun (name : string) (d : fundef B) (e : env B) : env B :=
-    {| globals := globals e; frame := frame e; funs := (name, d) :: funs e; out := out e; bad := bad e |}.
+    {| globals := globals e; frame := frame e; funs := (name, d) :: funs e; classes := classes e; heap := heap e;
+       out := out e; bad := bad e |}.
+  Definition add_class (name : string) (d : classdef B) (e : env B) : env B :=
+    {| globals := globals e; frame := frame e; funs := funs e; classes := (name, d) :: classes e; heap := heap e;
+       out := out e; bad := bad e |}.
+  Definition set_heap (h : list obj) (e : env B) : env B :=
+    {| globals := globals e; frame := frame e; funs := funs e; classes := classes e; heap := h;
+       out := out e; bad := bad e |}.
   Fixpoint find_fun (name : string) (l : list (string * fundef B)) : option (fundef B) :=
     match l with
     | [] => None
     | (n, d) :: r => if String.eqb n name then Some d else find_fun name r
+    end.
+  Fixpoint find_class (name : string) (l : list (string * classdef B)) : option (classdef B) :=
+    match l with
+    | [] => None
+    | (n, d) :: r => if String.eqb n name then Some d else find_class name r
+    end.
+
+  (** *** The heap *)
+  Fixpoint list_set {X} (l : list X) (n : nat) (x : X) : list X :=
+    match l, n with
+    | [], _ => []
+    | _ :: r, O => x :: r
+    | y :: r, S n' => y :: list_set r n' x
+    end.
+  Definition get_obj (a : nat) (e : env B) : option obj := nth_error (heap e) a.
+  Definition put_obj (a : nat) (o : obj) (e : env B) : env B := set_heap (list_set (heap e) a o) e.
+  Definition alloc (o : obj) (e : env B) : nat * env B :=
+    (List.length (heap e), set_heap (heap e ++ [o])%list e).
+  Definition field_of (a : nat) (x : string) (e : env B) : option value :=
+    match get_obj a e with Some o => sget x (ofields o) | None => None end.
+  Definition set_field (a : nat) (x : string) (v : value) (e : env B) : env B :=
+    match get_obj a e with
+    | Some o => put_obj a {| ocls := ocls o; ofields := sset x v (ofields o); oargs := oargs o |} e
+    | None => poison e
+    end.
+  Definition set_args (a : nat) (vs : list value) (e : env B) : env B :=
+    match get_obj a e with
+    | Some o => put_obj a {| ocls := ocls o; ofields := ofields o; oargs := Some vs |} e
+    | None => poison e
+    end.
+
+  (** *** Classes: linearisation, lookup of methods and class attributes along it *)
+  Definition parent_mro (p : string) (cs : list (string * classdef B)) : option (list string) :=
+    match find_class p cs with
+    | Some cd => Some (cmro cd)
+    | None => if is_builtin_exception p then Some (exc_ancestors p) else None
+    end.
+  Fixpoint parents_mro (ps : list string) (cs : list (string * classdef B)) : option (list string) :=
+    match ps with
+    | [] => Some []
+    | p :: r => match parent_mro p cs, parents_mro r cs with
+                | Some a, Some b => Some (a ++ b)%list
+                | _, _ => None
+                end
+    end.
+  (** depth first, left to right; this is Python's C3 order exactly when no ancestor is reached
+      twice, which is required ([no_dup]) *)
+  Definition new_mro (name : string) (ps : list string) (cs : list (string * classdef B)) : option (list string) :=
+    match parents_mro ps cs with
+    | Some l => let m := name :: l in if no_dup m then Some m else None
+    | None => None
+    end.
+
+  Inductive mfound := MUser (d : fundef B) | MBuiltin (cls : string) | MNone.
+  (** the first class of the linearisation that defines [m]; a builtin class ends the search *)
+  Fixpoint find_method (m : string) (mro : list string) (cs : list (string * classdef B)) : mfound :=
+    match mro with
+    | [] => MNone
+    | c :: r =>
+        match find_class c cs with
+        | Some cd => match find_fun m (cmethods cd) with Some d => MUser d | None => find_method m r cs end
+        | None => if is_builtin_exception c then MBuiltin c else find_method m r cs
+        end
+    end.
+  Fixpoint class_attr (x : string) (mro : list string) (cs : list (string * classdef B)) : option value :=
+    match mro with
+    | [] => None
+    | c :: r =>
+        match find_class c cs with
+        | Some cd => match sget x (cattrs cd) with Some v => Some v | None => class_attr x r cs end
+        | None => class_attr x r cs
+        end
+    end.
+
+  (** attribute of a value without effects (used for assignment targets [a.b.c = v]) *)
+  Definition read_attr_pure (v : value) (x : string) (e : env B) : option value :=
+    match v with
+    | VObj mro a =>
+        if dunder_name x then None
+        else match field_of a x e with
+             | Some w => Some w
+             | None => match find_method x mro (classes e) with
+                       | MNone => class_attr x mro (classes e)
+                       | _ => None
+                       end
+             end
+    | _ => None
+    end.
+  Fixpoint walk (v : value) (p : list string) (e : env B) : option value :=
+    match p with
+    | [] => Some v
+    | x :: r => match read_attr_pure v x e with Some w => walk w r e | None => None end
+    end.
+  Fixpoint split_last (l : list string) : option (list string * string) :=
+    match l with
+    | [] => None
+    | [x] => Some ([], x)
+    | x :: r => match split_last r with Some (i, z) => Some (x :: i, z) | None => None end
+    end.
+  (** [x.f1...fn.fld = v]; [must_exist]: the field has to be there already (reference semantics) *)
+  Definition assign_attr (must_exist : bool) (p : list string) (v : value) (e : env B) : env B :=
+    match p with
+    | x :: rest =>
+        match lookup_var x e, split_last rest with
+        | Some base, Some (mid, fld) =>
+            match walk base mid e with
+            | Some (VObj _ a) =>
+                if dunder_name fld then poison e
+                else if must_exist && match field_of a fld e with Some _ => false | None => true end then poison e
+                else set_field a fld v e
+            | _ => poison e
+            end
+        | _, _ => poison e
+        end
+    | [] => poison e
+    end.
+
+  (** printing: an instance of an exception class prints as its [args]; other objects are not modelled *)
+  Definition show_in (e : env B) (v : value) : option string :=
+    match v with
+    | VObj _ a =>
+        match get_obj a e with
+        | Some o => match oargs o with Some args => show (VExc "" args) | None => None end
+        | None => None
+        end
+    | other => show other
+    end.
+  Fixpoint shows_in (e : env B) (l : list value) : option (list string) :=
+    match l with
+    | [] => Some []
+    | x :: r => match show_in e x, shows_in e r with Some a, Some b => Some (a :: b) | _, _ => None end
     end.
 
   Fixpoint bind_params (ps : list string) (vs : list value) (fr : store) : option store :=
@@ -56,7 +227,7 @@ Section Env.
   (** builtins shared by both languages: [print], exception constructors, [len], [str] *)
   Definition builtin (name : string) (args : list value) (e : env B) : option ((value + value) * env B) :=
     if String.eqb name "print" then
-      Some (match shows args with
+      Some (match shows_in e args with
             | Some ss => (inl VNone, emit (join " " ss) e)
             | None => (unsup, e)
             end)
@@ -70,7 +241,7 @@ Section Env.
             end)
     else if String.eqb name "str" then
       Some (match args with
-            | [v] => match show v with Some s => (inl (VStr s), e) | None => (unsup, e) end
+            | [v] => match show_in e v with Some s => (inl (VStr s), e) | None => (unsup, e) end
             | _ => (unsup, e)
             end)
     else None.
@@ -79,7 +250,7 @@ Section Env.
     match args with
     | [VInt b] => inl (VRange 0 b 1)
     | [VInt a; VInt b] => inl (VRange a b 1)
-    | [VInt a; VInt b; VInt s] => if Z.eqb s 0 then inr (exc "ValueError") else inl (VRange a b s)
+    | [VInt a; VInt b; VInt s] => if Z.eqb s 0 then inr (rt_exc "ValueError") else inl (VRange a b s)
     | _ => unsup
     end.
 
@@ -87,8 +258,8 @@ Section Env.
     let at_ (l : list value) (i : Z) : value + value :=
       let n := Z.of_nat (List.length l) in
       let j := if Z.ltb i 0 then Z.add i n else i in
-      if Z.ltb j 0 || Z.leb n j then inr (exc "IndexError")
-      else match nth_error l (Z.to_nat j) with Some v => inl v | None => inr (exc "IndexError") end in
+      if Z.ltb j 0 || Z.leb n j then inr (rt_exc "IndexError")
+      else match nth_error l (Z.to_nat j) with Some v => inl v | None => inr (rt_exc "IndexError") end in
     match item, idx with
     | VList l, VInt i => at_ l i
     | VTuple l, VInt i => at_ l i
@@ -103,7 +274,11 @@ Section Env.
     end.
 
   Definition as_exn (v : value) : value :=
-    match v with VExc _ _ => v | _ => exc unsupported end.
+    match v with
+    | VExc _ _ => v
+    | VObj mro _ => if mro_is_exception mro then v else exc unsupported
+    | _ => exc unsupported
+    end.
 
   Definition plain_text (s : string) : bool := plain_string s && negb (existsb (fun c => Ascii.eqb c "{"%char || Ascii.eqb c "}"%char) (list_ascii_of_string s)).
 End Env.
@@ -126,7 +301,16 @@ Definition coreop_sop (o : coreop) : option sop :=
 
 Notation penv := (env core).
 
-(** assignment to a target: identifiers and tuples of targets *)
+(** the names of an attribute path [a.b.c], however the property calls are nested *)
+Fixpoint path_of (c : core) : option (list string) :=
+  match c with
+  | Id x => Some [x]
+  | PropertyCall a b =>
+      match path_of a, path_of b with Some p, Some q => Some (p ++ q)%list | _, _ => None end
+  | _ => None
+  end.
+
+(** assignment to a target: identifiers, tuples of targets, attributes of objects *)
 Fixpoint cassign (t : core) (v : value) (e : penv) {struct t} : penv :=
   let fix each (ts : list core) (vs : list value) (e : penv) {struct ts} : penv :=
     match ts, vs with
@@ -138,6 +322,8 @@ Fixpoint cassign (t : core) (v : value) (e : penv) {struct t} : penv :=
   | Id x => set_var x v e
   | TupleLiteral ts | Tuple ts =>
       match v with VTuple vs | VList vs => each ts vs e | _ => poison e end
+  | PropertyCall _ _ =>
+      match path_of t with Some p => assign_attr false p v e | None => poison e end
   | _ => poison e
   end.
 
@@ -161,23 +347,82 @@ Definition class_name (c : core) : option string :=
 Definition ccatches (cl : core) (x : value) : bool :=
   match x, class_name cl with
   | VExc c _, Some n => negb (is_internal x) && exc_isa c n
+  | VObj mro _, Some n => mro_isa mro n
   | _, _ => false
   end.
 
+(** the synthesised constructor has a bare [self] as first parameter *)
 Definition param_name (a : core) : option string :=
-  match a with FunArg false (Id x) _ None => Some x | _ => None end.
+  match a with FunArg false (Id x) _ None => Some x | Id x => Some x | _ => None end.
 Fixpoint param_names (l : list core) : option (list string) :=
   match l with
   | [] => Some []
   | a :: r => match param_name a, param_names r with Some x, Some xs => Some (x :: xs) | _, _ => None end
   end.
 
+(** initialisers of class attributes: constants only (a class body is executed by [define],
+    which has no evaluator at hand) *)
+Definition const_eval (c : core) : option value :=
+  match c with
+  | Int s => match z_of_string s with Some z => Some (VInt z) | None => None end
+  | Bool b => Some (VBool b)
+  | Str s => if plain_text s then Some (VStr s) else None
+  | None_ => Some VNone
+  | Un CuSubU (Int s) => match z_of_string s with Some z => Some (VInt (- z)) | None => None end
+  | _ => None
+  end.
+
+Fixpoint class_names (l : list core) : option (list string) :=
+  match l with
+  | [] => Some []
+  | a :: r => match class_name a, class_names r with Some x, Some xs => Some (x :: xs) | _, _ => None end
+  end.
+
+(** the statements of a class body: attributes with constant initialisers, methods; a dunder
+    method other than [__init__] changes the meaning of operators, printing, truth: not modelled *)
+Fixpoint class_body (l : list core) (attrs : store) (ms : list (string * fundef core))
+  : option (store * list (string * fundef core)) :=
+  match l with
+  | [] => Some (attrs, ms)
+  | st :: r =>
+      match st with
+      | VarDef (Id x) _ (Some c) =>
+          if dunder_name x then None
+          else match const_eval c with Some v => class_body r (sset x v attrs) ms | None => None end
+      | FunDef [] m args _ body =>
+          if dunder_name m && negb (String.eqb m "__init__") then None
+          else match param_names args with
+               | Some ps => class_body r attrs ((m, {| fparams := ps; fbody := body; fvalret := false |}) :: ms)
+               | None => None
+               end
+      | Pass | DocStr _ => class_body r attrs ms
+      | _ => None
+      end
+  end.
+
+Definition is_some {X} (o : option X) : bool := match o with Some _ => true | None => false end.
+
 Definition cdefine (d : core) (e : penv) : penv :=
   match d with
   | FunDef [] name args _ body =>
       match param_names args with
-      | Some ps => add_fun name {| fparams := ps; fbody := body; fvalret := false |} e
+      | Some ps =>
+          if is_some (find_class name (classes e)) then poison e
+          else add_fun name {| fparams := ps; fbody := body; fvalret := false |} e
       | None => poison e
+      end
+  | ClassDef cname parents (Block body) =>
+      match class_name cname, class_names parents with
+      | Some name, Some ps =>
+          if is_builtin_exception name || is_some (find_fun name (funs e)) || is_some (find_class name (classes e))
+          then poison e
+          else match new_mro name ps (classes e), class_body body [] [] with
+               | Some mro, Some (attrs, ms) =>
+                   add_class name {| cparams := []; cparents := map (fun p => (p, [])) ps; cattrs := attrs;
+                                     cmethods := ms; cmro := mro |} e
+               | _, _ => poison e
+               end
+      | _, _ => poison e
       end
   | Import _ _ _ => e
   | _ => poison e
@@ -199,6 +444,91 @@ Section Eval.
             end
         | (inr x, e1) => (inr x, e1)
         end
+    end.
+
+  (** [o.x]: the instance field, then the class attributes; a method read as a value and the
+      attributes of builtin classes are not modelled *)
+  Definition read_attr (mro : list string) (a : nat) (x : string) (e : penv) : value + value :=
+    if dunder_name x then unsup
+    else match field_of a x e with
+         | Some v => inl v
+         | None =>
+             match find_method x mro (classes e) with
+             | MNone => match class_attr x mro (classes e) with
+                        | Some v => inl v
+                        | None => if mro_is_exception mro then unsup else inr (rt_exc "AttributeError")
+                        end
+             | _ => unsup
+             end
+         end.
+
+  (** the function [o.m] is bound to *)
+  Definition method_of (mro : list string) (a : nat) (m : string) (e : penv) : fundef core + value :=
+    if dunder_name m then inr (exc unsupported)
+    else match field_of a m e, class_attr m mro (classes e) with
+         | None, None =>
+             match find_method m mro (classes e) with
+             | MUser d => inl d
+             | MBuiltin _ => inr (exc unsupported)
+             | MNone => inr (if mro_is_exception mro then exc unsupported else rt_exc "AttributeError")
+             end
+         | _, _ => inr (exc unsupported)
+         end.
+
+  (** [C(args)] *)
+  Definition instantiate (name : string) (cd : classdef core) (vs : list value) (e : penv) : (value + value) * penv :=
+    let mro := cmro cd in
+    let '(a, e1) := alloc {| ocls := name; ofields := []; oargs := if mro_is_exception mro then Some vs else None |} e in
+    let self := VObj mro a in
+    match find_method "__init__" mro (classes e1) with
+    | MUser d =>
+        match call d (self :: vs) e1 with
+        | (inl VNone, e2) => (inl self, e2)
+        | (inl _, e2) => (unsup, e2)
+        | (inr x, e2) => (inr x, e2)
+        end
+    | MBuiltin _ => (inl self, e1)
+    | MNone => match vs with [] => (inl self, e1) | _ => (unsup, e1) end
+    end.
+
+  (** [C.m(args)] for a class [C]: the plain function, [self] among the arguments *)
+  Definition static_call (mro : list string) (m : string) (vs : list value) (e : penv) : (value + value) * penv :=
+    if dunder_name m && negb (String.eqb m "__init__") then (unsup, e)
+    else match find_method m mro (classes e) with
+         | MUser d => call d vs e
+         | MBuiltin b =>
+             if String.eqb m "__init__" then
+               match vs with
+               | VObj omro a :: rest =>
+                   match get_obj a e with
+                   | Some o => match oargs o with
+                               | Some _ => if mro_isa omro b then (inl VNone, set_args a rest e) else (unsup, e)
+                               | None => (unsup, e)
+                               end
+                   | None => (unsup, e)
+                   end
+               | _ => (unsup, e)
+               end
+             else (unsup, e)
+         | MNone =>
+             (* no class of the linearisation defines it: [object.__init__(self)] does nothing *)
+             if String.eqb m "__init__" then
+               match vs with [VObj _ _] => (inl VNone, e) | _ => (unsup, e) end
+             else (unsup, e)
+         end.
+
+  (** the linearisation of the class an expression names, when it names one *)
+  Definition static_class (o : core) (e : penv) : option (list string) :=
+    match class_name o with
+    | Some c =>
+        match lookup_var c e with
+        | Some _ => None
+        | None => match find_class c (classes e) with
+                  | Some cd => Some (cmro cd)
+                  | None => if is_builtin_exception c then Some (exc_ancestors c) else None
+                  end
+        end
+    | None => None
     end.
 
   Definition cexpr1 (c : core) (e : penv) : (value + value) * penv :=
@@ -261,11 +591,48 @@ Section Eval.
                 if String.eqb name "range" then (mk_range vs, e1)
                 else match find_fun name (funs e1) with
                      | Some d => call d vs e1
-                     | None => match builtin name vs e1 with Some r => r | None => (unsup, e1) end
+                     | None =>
+                         match find_class name (classes e1) with
+                         | Some cd => instantiate name cd vs e1
+                         | None => match builtin name vs e1 with Some r => r | None => (unsup, e1) end
+                         end
                      end
             | (inr x, e1) => (inr x, e1)
             end
         | None => (unsup, e)
+        end
+    | PropertyCall o (PropertyCall p q) => ev (PropertyCall (PropertyCall o p) q) e      (* [o.p.q] is [(o.p).q] *)
+    | PropertyCall o (FunctionCall fn args) =>
+        match class_name fn with
+        | Some m =>
+            match static_class o e with
+            | Some mro =>
+                match eval_list args e with
+                | (inl vs, e1) => static_call mro m vs e1
+                | (inr x, e1) => (inr x, e1)
+                end
+            | None =>
+                match ev o e with
+                | (inl (VObj mro a), e1) =>
+                    match method_of mro a m e1 with
+                    | inl d =>
+                        match eval_list args e1 with
+                        | (inl vs, e2) => call d (VObj mro a :: vs) e2
+                        | (inr x, e2) => (inr x, e2)
+                        end
+                    | inr x => (inr x, e1)
+                    end
+                | (inl _, e1) => (unsup, e1)
+                | other => other
+                end
+            end
+        | None => (unsup, e)
+        end
+    | PropertyCall o (Id x) =>
+        match ev o e with
+        | (inl (VObj mro a), e1) => (read_attr mro a x e1, e1)
+        | (inl _, e1) => (unsup, e1)
+        | other => other
         end
     | _ => (unsup, e)
     end.
@@ -318,6 +685,7 @@ Definition run_py (f : nat) (c : core) : list string * status :=
        else match x with
             | VExc c _ => if String.eqb c unsupported then Unsupported
                           else if String.eqb c out_of_fuel then Fuel else Uncaught c
+            | VObj (c :: _) _ => Uncaught c
             | _ => Unsupported
             end)
   | OFuel _ _ _ => ([], Fuel)
